@@ -64,21 +64,28 @@ func Gid() uint64 {
 	return id
 }
 
-// Go starts fn as the process name. fn runs freely until its first gate.
+// Go starts fn as the process name. fn runs freely until its first gate. The process is registered
+// before its goroutine exists, so that the scheduler never takes the spawning goroutine (briefly
+// blocked while the new one starts) for a settled system.
 func (s *Sched) Go(name string, fn func()) {
 	p := &Proc{Name: name, release: make(chan struct{}, 1)}
+	s.mu.Lock()
+	if _, dup := s.procs[name]; dup {
+		s.mu.Unlock()
+		panic("sched: duplicate process " + name)
+	}
+	s.procs[name] = p
+	s.names = append(s.names, name)
+	s.mu.Unlock()
+	atomic.AddInt64(&s.epoch, 1)
 	ready := make(chan struct{})
 	go func() {
-		p.gid = Gid()
+		gid := Gid()
 		s.mu.Lock()
-		if _, dup := s.procs[name]; dup {
-			s.mu.Unlock()
-			panic("sched: duplicate process " + name)
-		}
-		s.procs[name] = p
-		s.byGid[p.gid] = p
-		s.names = append(s.names, name)
+		p.gid = gid
+		s.byGid[gid] = p
 		s.mu.Unlock()
+		atomic.AddInt64(&s.epoch, 1)
 		close(ready)
 		defer func() {
 			if r := recover(); r != nil {
